@@ -55,7 +55,8 @@ pub fn record_quantile(path: &str, seed: u64, n: usize, rep: &mut Report) {
             }
             let dyadic = p32 < 1000;
             let p = if dyadic { p32 as f64 / 32.0 } else { (p32 - 1000) as f64 / 10.0 };
-            let mut qt = Quantile::new(p);
+            // Default::default() is the median estimator; Clone is a stuttering step (below)
+            let mut qt = if p32 == 16 { Quantile::default() } else { Quantile::new(p) };
             // C18 twin: fed the same stream, but serialised and restored (serde_json, lossless for
             // finite f64) before every observation; its serialised state must stay identical
             let mut twin = Quantile::new(p);
@@ -65,6 +66,9 @@ pub fn record_quantile(path: &str, seed: u64, n: usize, rep: &mut Report) {
             let mut lo = f64::INFINITY;
             let mut hi = f64::NEG_INFINITY;
             for (i, &x) in xs.iter().enumerate() {
+                if i % 7 == 3 {
+                    qt = qt.clone();
+                }
                 let pre = markers(&qt);
                 // a panic of the code under test is logged as an event no specification action matches
                 let step = std::panic::catch_unwind(std::panic::AssertUnwindSafe(|| {
@@ -125,6 +129,9 @@ pub fn record_quantile(path: &str, seed: u64, n: usize, rep: &mut Report) {
         let len = 12 + k % 19;
         for i in 0..len {
             let x = rng.random_range(0..17) as f64;
+            if i == len / 2 || i == 3 {
+                qt = qt.clone();
+            }
             let pre = markers(&qt);
             let step = std::panic::catch_unwind(std::panic::AssertUnwindSafe(|| {
                 qt.add(x);
